@@ -184,7 +184,9 @@ fn sched_worker(rx: Receiver<Cmd>, tx: Sender<Value>) {
                 let w = (Decimal::new_raw(1_000_000_000_000_000_000_001, 18) * Decimal::new_raw(500_000_000_000_000_000, 18)).coefficient()
                     - 500_000_000_000_000_000_000;
                 let dv = (Decimal::new_raw(3, 18) / Decimal::TWO).coefficient();            // 1.5e-18: the `/` operator
-                tx.send(json!([a, b, c, d, e2, f, g.parse::<i64>().unwrap_or(99), h, w as i64, dv])).unwrap();
+                // an exact quotient on the 256-bit division path: no mode may change it
+                let ex = (Decimal::new_raw(1_000_000_000_000_000_000_000, 0) / Decimal::new_raw(8, 0)).coefficient() - 125_000_000_000_000_000_000;
+                tx.send(json!([a, b, c, d, e2, f, g.parse::<i64>().unwrap_or(99), h, w as i64, dv, ex as i64])).unwrap();
             }
             Cmd::Spawn(crx, ctx) => {
                 children.push(std::thread::spawn(move || sched_worker(crx, ctx)));
